@@ -612,10 +612,6 @@ class IPPO(MultiAgentRLAlgorithm):
         log_probs, rewards, dones, values = map(
             vectorize_experiences_by_agent, (log_probs, rewards, dones, values)
         )
-        log_probs = log_probs.squeeze()
-        rewards = rewards.squeeze()
-        dones = dones.squeeze()
-        values = values.squeeze()
         next_state = vectorize_experiences_by_agent(next_state, dim=0)
         next_done = vectorize_experiences_by_agent(next_done)
 
